@@ -503,7 +503,12 @@ func (r *Reconciler) Reconcile(ctx context.Context, req reconcile.Request) (reco
 		}
 
 		log.Debug("Successfully deleted composite resource")
-		xr.SetConditions(xpv1.ReconcileSuccess())
+		// Removing the finalizer updated the XR, which replaced our in-memory
+		// copy - including the Deleting condition set above - with what the
+		// API server returned. Set it again so that an XR that outlives our
+		// finalizer (e.g. due to foreground deletion) doesn't keep reporting
+		// that it's available.
+		xr.SetConditions(xpv1.Deleting(), xpv1.ReconcileSuccess())
 		return reconcile.Result{Requeue: false}, errors.Wrap(r.client.Status().Update(ctx, xr), errUpdateStatus)
 	}
 
